@@ -21,6 +21,7 @@ import (
 // Case is the outcome of one explored case, as judged by the property's oracle.
 type Case struct {
 	Hash         uint64     // distinctness hash of the canonical case (0: do not count)
+	Hashes       []uint64   // a case made of several distinct sub-cases (e.g. one per injection point) lists them here
 	Nontrivial   bool       // non-trivial by the property's stated rule
 	Tags         []string   // histogram keys (what the case exercised / what the monitor saw)
 	Viol         *Violation // non-nil: the oracle refuted the property on this case
@@ -278,6 +279,9 @@ func workerMain(args []string) int {
 		}
 		if c.Hash != 0 && c.Nontrivial {
 			hashes = append(hashes, c.Hash)
+		}
+		if c.Nontrivial {
+			hashes = append(hashes, c.Hashes...)
 		}
 		if c.Sample != nil && len(sum.Samples) < 3 {
 			sum.Samples = append(sum.Samples, c.Sample)
